@@ -399,6 +399,14 @@ func cNumType(typ *a.TypeExpr) string {
 		return "uint32_t"
 	case t.IDU64:
 		return "uint64_t"
+	case t.IDI8:
+		return "int8_t"
+	case t.IDI16:
+		return "int16_t"
+	case t.IDI32:
+		return "int32_t"
+	case t.IDI64:
+		return "int64_t"
 	}
 	return ""
 }
